@@ -191,6 +191,17 @@ impl<Key, Value> Store<Key, Value>
     }
 }
 
+#[cfg(cached_verif)]
+impl<Key, Value> Store<Key, Value>
+    where Key: Hash + Eq + Clone, {
+    /// (key, key id, expiry, soft-deleted) of every physical entry. Simulation harness only.
+    pub(crate) fn verif_snapshot(&self) -> Vec<(Key, KeyId, Option<ExpireAfter>, bool)> {
+        self.store.iter().map(|pair| {
+            (pair.key().clone(), pair.value().key_id(), pair.value().expire_after(), pair.value().is_soft_deleted)
+        }).collect()
+    }
+}
+
 #[cfg(test)]
 mod tests {
     use std::ops::Add;
